@@ -45,6 +45,8 @@ fn arb_int_expr(depth: u32) -> BoxedStrategy<Ast> {
             1 => e.clone().prop_map(|a| Ast::Call("rec2".into(), Box::new(a))),
             1 => e.clone().prop_map(|a| Ast::Call("rec3".into(), Box::new(a))),
             2 => (select(vec!["fail1", "fail2"]), e.clone()).prop_map(|(f, a)| Ast::Call(f.to_string(), Box::new(a))),
+            // user functions that shadow a builtin and fail: their error wins, the builtin is not consulted
+            1 => (select(vec!["floor", "len"]), e.clone()).prop_map(|(f, a)| Ast::Call(f.to_string(), Box::new(a))),
             1 => (select(vec!["nofn1", "nofn2"]), e.clone()).prop_map(|(f, a)| Ast::Call(f.to_string(), Box::new(a))),
             2 => (e.clone(), e.clone()).prop_map(|(a, b)| Ast::Call("rec1".into(), Box::new(Ast::Tuple(vec![a, b])))),
             1 => e.clone().prop_map(|a| Ast::Neg(Box::new(a))),
@@ -110,6 +112,8 @@ fn arb_ctx() -> BoxedStrategy<Ctx> {
             c.funcs.insert("rec3".into(), if rec3_bool { UF::Identity } else { UF::Const(RV::Int(3)) });
             c.funcs.insert("fail1".into(), UF::Fail(1));
             c.funcs.insert("fail2".into(), UF::Fail(2));
+            c.funcs.insert("floor".into(), UF::Fail(3));
+            c.funcs.insert("len".into(), UF::IntPlus5);
             c
         })
         .boxed()
@@ -126,7 +130,7 @@ fn effect_count(a: &Ast) -> (usize, usize) {
         Lit(_) | Var(_) | Empty | Opaque(_) | Malformed(_) => (0, 0),
         Call(n, x) => {
             let (a1, c1) = effect_count(x);
-            (a1, c1 + if n.starts_with("rec") || n.starts_with("fail") { 1 } else { 0 })
+            (a1, c1 + if n.starts_with("rec") || n.starts_with("fail") || n == "floor" || n == "len" { 1 } else { 0 })
         },
         Neg(x) | Not(x) | Paren(x) => effect_count(x),
         Bin(_, l, r) => {
